@@ -2,6 +2,8 @@ package gh
 
 import (
 	"bytes"
+	"crypto/sha256"
+	"encoding/hex"
 	"errors"
 	"fmt"
 	"os"
@@ -141,8 +143,24 @@ func (c *Cfg) helpNode(txt string) int {
 // CaseTimeout - watchdog per case.
 var CaseTimeout = 10 * time.Second
 
+// Repeat - number of additional executions of every case whose full observable output must be identical.
+var Repeat = 0
+
 // RunCase - run one case against the real library and return the observable outcome in normal form.
 func RunCase(d *Def, c *Case) Res {
+	r := runCaseWatched(d, c)
+	h := sha256.Sum256([]byte(r.Raw))
+	r.RawHash = hex.EncodeToString(h[:8])
+	for i := 0; i < Repeat && !r.Hang; i++ {
+		r2 := runCaseWatched(d, c)
+		if r2.Raw != r.Raw {
+			r.NonDet = true
+		}
+	}
+	return r
+}
+
+func runCaseWatched(d *Def, c *Case) Res {
 	ch := make(chan Res, 1)
 	go func() { ch <- runCase(d, c) }()
 	select {
